@@ -22,7 +22,9 @@ for d in sorted((VERIF / "seeded").iterdir()):
     files = ", ".join(sorted({f.replace("hypatia/", "").replace("/__init__.py", "") for f in meta.get("files", [])}))
     rows.append("| %s | %s | %s | %s | %s |" % (
         d.name, files, what.replace("|", "/"),
-        "**yes**" if own in caught else ("no (%s)" % ", ".join(c for c in caught if c != own) if caught else "NO"),
+        "**yes**" if own in caught else ("no (%s)" % ", ".join(c for c in caught if c != own) if caught else
+                                        ("outside every property: " + meta["out_of_scope"] if meta.get("out_of_scope")
+                                         else "NO")),
         ", ".join(c for c in caught if c != own) or "–"))
 table = ["| seed | where | change | caught by its own property's check | also caught by |", "|---|---|---|---|---|"] + rows
 p = VERIF / "DESIGN.md"
